@@ -361,3 +361,219 @@ Section DerivRel.
       rewrite (fsub0 _ _ (HR k)). ring.
   Qed.
 End DerivRel.
+
+(** *** formal derivative on coefficient lists: linearity and the Leibniz rule (at evaluation) *)
+Section PolyDeriv.
+  Context {F : Type} {o : Ops F} {Fc : FieldC o}.
+  Add Field FFpd : (field_c : FieldTh o).
+
+  Lemma pdf_S n (p : list F) t :
+    peval (pderiv_from (S n) p) t = peval (pderiv_from n p) t + peval p t.
+  Proof.
+    revert n; induction p as [|a p IH]; intros n; cbn [pderiv_from peval]; [ring|].
+    rewrite (IH (S n)). cbn [llit]. ring.
+  Qed.
+  Lemma pdf_0 (p : list F) t : peval (pderiv_from 0 p) t = t * peval (pderiv p) t.
+  Proof. destruct p as [|a p]; cbn [pderiv_from pderiv peval llit]; ring. Qed.
+  Lemma pderiv_cons a (p : list F) t :
+    peval (pderiv (a :: p)) t = peval p t + t * peval (pderiv p) t.
+  Proof. cbn [pderiv]. rewrite pdf_S, pdf_0. ring. Qed.
+
+  Lemma pdf_padd n (p q : list F) t :
+    peval (pderiv_from n (padd p q)) t = peval (pderiv_from n p) t + peval (pderiv_from n q) t.
+  Proof.
+    revert n q; induction p as [|a p IH]; intros n [|b q]; cbn [padd pderiv_from peval]; try ring.
+    rewrite IH. ring.
+  Qed.
+  Lemma pderiv_padd (p q : list F) t :
+    peval (pderiv (padd p q)) t = peval (pderiv p) t + peval (pderiv q) t.
+  Proof. destruct p as [|a p], q as [|b q]; cbn [padd pderiv peval]; try ring. apply pdf_padd. Qed.
+
+  Lemma pdf_map n (g : F -> F) c (p : list F) t : (forall a, g a = c * a) ->
+    peval (pderiv_from n (map g p)) t = c * peval (pderiv_from n p) t.
+  Proof.
+    intros Hg. revert n; induction p as [|a p IH]; intros n; cbn [map pderiv_from peval]; [ring|].
+    rewrite IH, Hg. ring.
+  Qed.
+  Lemma pderiv_map (g : F -> F) c (p : list F) t : (forall a, g a = c * a) ->
+    peval (pderiv (map g p)) t = c * peval (pderiv p) t.
+  Proof. intros Hg. destruct p as [|a p]; cbn [map pderiv peval]; [ring|]. now apply pdf_map. Qed.
+  Lemma pderiv_pscale c (p : list F) t : peval (pderiv (pscale c p)) t = c * peval (pderiv p) t.
+  Proof. unfold pscale. apply pderiv_map. reflexivity. Qed.
+  Lemma pderiv_popp (p : list F) t : peval (pderiv (popp p)) t = - peval (pderiv p) t.
+  Proof. unfold popp. rewrite (pderiv_map _ (- (1))); [ring|]. intros a. ring. Qed.
+  Lemma pderiv_psub (p q : list F) t :
+    peval (pderiv (psub p q)) t = peval (pderiv p) t - peval (pderiv q) t.
+  Proof. unfold psub. rewrite pderiv_padd, pderiv_popp. ring. Qed.
+  Lemma pderiv_pmulx (p : list F) t : peval (pderiv (pmulx p)) t = peval p t + t * peval (pderiv p) t.
+  Proof. unfold pmulx. apply pderiv_cons. Qed.
+
+  (** Leibniz rule *)
+  Theorem pderiv_pmul (p q : list F) t :
+    peval (pderiv (pmul p q)) t = peval (pderiv p) t * peval q t + peval p t * peval (pderiv q) t.
+  Proof.
+    induction p as [|a p IH]; [cbn [pmul pderiv peval]; ring|].
+    cbn [pmul]. rewrite pderiv_padd, pderiv_pscale, pderiv_pmulx, IH, peval_pmul, pderiv_cons.
+    cbn [peval]. ring.
+  Qed.
+  Lemma pderiv_pconst (c t : F) : peval (pderiv (pconst c)) t = 0.
+  Proof. reflexivity. Qed.
+  Lemma pderiv_pX (t : F) : peval (pderiv pX) t = 1.
+  Proof. unfold pX. cbn [pderiv pderiv_from peval llit]. ring. Qed.
+
+  (** derivative of the generated three-term step with constant a, b and X = x *)
+  Lemma pderiv_leg_step (a b : F) (p1 p2 : list F) t :
+    peval (pderiv (@leg_step (list F) PolyOps (pconst a) (pconst b) pX p1 p2)) t
+    = a * (peval p1 t + t * peval (pderiv p1) t - b * peval (pderiv p2) t).
+  Proof.
+    unfold leg_step. cbn [fadd fmul fsub fopp PolyOps].
+    repeat first [rewrite pderiv_pmul | rewrite pderiv_psub | rewrite pderiv_padd | rewrite pderiv_popp
+                 | rewrite peval_pmul | rewrite peval_psub | rewrite peval_padd | rewrite peval_popp].
+    rewrite !pderiv_pconst, pderiv_pX, !peval_pconst, peval_pX. ring.
+  Qed.
+End PolyDeriv.
+
+(** *** (C02) the derivative relation for the code's recurrence: instantiation of
+    [deriv_relation_abstract] with the coefficient lists [leg_qs] (built by the generated [leg_step]
+    at [PolyOps]) and their formal derivative.
+    eb k = sqrt(rad_b m k) is the code's coefficient b at step k, i.e. eps(m, m+k-1);
+    ea k = sqrt(rad_a m k) the coefficient a.  Hypotheses on np.sqrt: it squares to the radicand on
+    the b-radicands [Hsq], it is 0 on the zero radicand of step 1 [Hb1], a_k * b_{k+1} = 1 (the two
+    radicands are reciprocal, Thm/Legendre.v rad_a_rad_b) [Hrec]; and 4 l^2 - 1 <> 0 in F [Hden]. *)
+Section LegendreDerivative.
+  Context {F : Type} {o : Ops F} {Fc : FieldC o}.
+  Add Field FFld : (field_c : FieldTh o).
+  Variable sq : F -> F.
+  Variable m : nat.
+  Definition leg_ea (k : nat) : F := sq (rad_a (llit m) (llit k)).
+  Definition leg_eb (k : nat) : F := sq (rad_b (llit m) (llit k)).
+  Hypothesis Hsq : forall k, leg_eb (S k) * leg_eb (S k) = rad_b (llit m) (llit (S k)).
+  Hypothesis Hb1 : leg_eb 1 = 0.
+  Hypothesis Hrec : forall k, leg_ea (S k) * leg_eb (S (S k)) = 1.
+  Hypothesis Hden : forall k, lit 4 * (llit (m + k) * llit (m + k)) - 1 <> 0.
+
+  Lemma leg_qs_fst_S k :
+    fst (leg_qs sq m (S k))
+    = @leg_step (list F) PolyOps (pconst (leg_ea (S k))) (pconst (leg_eb (S k))) pX
+                (fst (leg_qs sq m k)) (snd (leg_qs sq m k)).
+  Proof. reflexivity. Qed.
+  Lemma leg_qs_snd_S k : snd (leg_qs sq m (S k)) = fst (leg_qs sq m k).
+  Proof. reflexivity. Qed.
+
+  Lemma leg_eb_nz k : leg_eb (S (S k)) <> 0.
+  Proof. intro E. pose proof (Hrec k) as H. rewrite E in H. apply f1_neq_0. rewrite <- H. ring. Qed.
+
+  Lemma llit_mk k : llit m + llit (S k) - 1 = llit (m + k) :> F.
+  Proof. rewrite llit_add. cbn [llit]. ring. Qed.
+
+  Lemma leg_eb_sq k : leg_eb (S k) * leg_eb (S k) = a2_expr 1 (llit (m + k)) (llit m).
+  Proof. rewrite Hsq, rad_b_eps2, llit_mk. reflexivity. Qed.
+
+  Section AtPoint.
+    Variable t : F.
+    Let Q (k : nat) : F := peval (fst (leg_qs sq m k)) t.
+    Let dQ (k : nat) : F := peval (pderiv (fst (leg_qs sq m k))) t.
+    Let e (k : nat) : F := leg_eb (S k).
+    Let Lf (k : nat) : F := llit (m + k).
+
+    Lemma Q_S k : Q (S k) = leg_ea (S k) * (t * Q k - leg_eb (S k) * peval (snd (leg_qs sq m k)) t).
+    Proof.
+      unfold Q. rewrite leg_qs_fst_S, peval_leg_step, !peval_pconst, peval_pX. unfold leg_step. ring.
+    Qed.
+    Lemma dQ_S k :
+      dQ (S k) = leg_ea (S k) * (Q k + t * dQ k - leg_eb (S k) * peval (pderiv (snd (leg_qs sq m k))) t).
+    Proof. unfold dQ, Q. rewrite leg_qs_fst_S, pderiv_leg_step. reflexivity. Qed.
+
+    Lemma leg_HR0 : e 1%nat * Q 1%nat = t * Q 0%nat.
+    Proof.
+      unfold e. rewrite Q_S. cbn [leg_qs snd peval].
+      transitivity (leg_ea 1 * leg_eb 2 * (t * Q 0%nat)); [ring|]. rewrite Hrec. ring.
+    Qed.
+    Lemma leg_HR k : e (S (S k)) * Q (S (S k)) = t * Q (S k) - e (S k) * Q k.
+    Proof.
+      unfold e. rewrite (Q_S (S k)), leg_qs_snd_S. fold (Q k).
+      transitivity (leg_ea (S (S k)) * leg_eb (S (S (S k))) * (t * Q (S k) - leg_eb (S (S k)) * Q k)); [ring|].
+      rewrite Hrec. ring.
+    Qed.
+    Lemma leg_HdQ0 : dQ 0%nat = 0.
+    Proof. reflexivity. Qed.
+    Lemma leg_HdR0 : e 1%nat * dQ 1%nat = Q 0%nat + t * dQ 0%nat.
+    Proof.
+      unfold e. rewrite dQ_S. cbn [leg_qs snd pderiv peval].
+      transitivity (leg_ea 1 * leg_eb 2 * (Q 0%nat + t * dQ 0%nat)); [ring|]. rewrite Hrec. ring.
+    Qed.
+    Lemma leg_HdR k : e (S (S k)) * dQ (S (S k)) = Q (S k) + t * dQ (S k) - e (S k) * dQ k.
+    Proof.
+      unfold e. rewrite (dQ_S (S k)), leg_qs_snd_S. fold (dQ k).
+      transitivity (leg_ea (S (S k)) * leg_eb (S (S (S k))) * (Q (S k) + t * dQ (S k) - leg_eb (S (S k)) * dQ k)); [ring|].
+      rewrite Hrec. ring.
+    Qed.
+    Lemma leg_Hkey k :
+      1 + ((1 + 1) * Lf k - 1) * (e k * e k) = ((1 + 1) * Lf k + 1 + 1 + 1) * (e (S k) * e (S k)).
+    Proof.
+      unfold e, Lf. rewrite !leg_eb_sq.
+      replace (llit (m + S k) : F) with (llit (m + k) + 1 : F) by (rewrite Nat.add_succ_r; reflexivity).
+      apply eps2_key; [apply Hden|].
+      pose proof (Hden (S k)) as H. rewrite Nat.add_succ_r in H. exact H.
+    Qed.
+
+    Lemma peval_leg_Dm (q : list F) :
+      peval (leg_Dm m q) t = (1 - t * t) * peval (pderiv q) t - llit m * t * peval q t.
+    Proof.
+      unfold leg_Dm. rewrite peval_psub, peval_pmul, peval_leg_y2, peval_pX, peval_pscale, peval_pmul, peval_pX, leg_y2_spec.
+      ring.
+    Qed.
+
+    (** (1 - x^2) q_l' - m x q_l = d1_wm(l, eps_l) q_{l-1} + d1_wp(l, eps_{l+1}) q_{l+1},  l = m + k *)
+    Theorem leg_q_derivative_relation k :
+      peval (leg_Dm m (fst (leg_qs sq m k))) t
+      = d1_wm (lit (m + k)) (leg_eb (S k)) * (match k with O => 0 | S k' => peval (fst (leg_qs sq m k')) t end)
+        + d1_wp (lit (m + k)) (leg_eb (S (S k))) * peval (fst (leg_qs sq m (S k))) t.
+    Proof.
+      rewrite peval_leg_Dm.
+      pose proof (deriv_relation_abstract t (llit m) Q dQ e Lf) as H.
+      specialize (H (f_equal llit (Nat.add_0_r m))).
+      specialize (H (fun k => f_equal llit (Nat.add_succ_r m k))).
+      specialize (H Hb1 leg_eb_nz leg_HR0 leg_HR leg_HdQ0 leg_HdR0 leg_HdR leg_Hkey k).
+      unfold Ek in H. fold (dQ k) (Q k). rewrite H.
+      unfold d1_wm, d1_wp, e, Lf. change (@lit F o (m + k)) with (@llit F o (m + k)). cbn [lit].
+      destruct k; unfold Q; ring.
+    Qed.
+  End AtPoint.
+End LegendreDerivative.
+
+(** *** the same on the Legendre TABLE of the code: with P[m,i,l] = evaluate(n_m, n_l, x)[m,i,l] = y_i^m q_{m,l}(x_i),
+    the value of (1 - x^2) d/dx P at node i, y_i^m * ((1 - x^2) q' - m x q)(x_i) = y_i^m * leg_Dm, is the
+    d1_wm / d1_wp weighted combination of the neighbouring table entries, with a = eps(m,l), b = eps(m,l+1) *)
+Section LegendreDerivativeTable.
+  Context {F : Type} {o : Ops F} {Fc : FieldC o}.
+  Add Field FFldt : (field_c : FieldTh o).
+  Variable sq : F -> F.
+
+  Lemma leg_q_mk m k : leg_q sq m (m + k) = fst (leg_qs sq m k).
+  Proof. unfold leg_q. replace (m + k - m)%nat with k by lia. reflexivity. Qed.
+  Lemma leg_eps_mk m k : leg_eps sq m (m + k) = leg_eb sq m (S k).
+  Proof. unfold leg_eps, leg_b, leg_eb. replace (m + k + 1 - m)%nat with (S k) by lia. reflexivity. Qed.
+
+  Theorem legendre_derivative_relation nx (x y : nat -> F) n_m n_l m i k :
+    (forall j, leg_eb sq m (S j) * leg_eb sq m (S j) = rad_b (llit m) (llit (S j))) ->
+    leg_eb sq m 1 = 0 ->
+    (forall j, leg_ea sq m (S j) * leg_eb sq m (S (S j)) = 1) ->
+    (forall j, lit 4 * (llit (m + j)%nat * llit (m + j)%nat) - 1 <> 0) ->
+    (n_m <= n_l)%nat -> (i < nx)%nat -> (m < n_m)%nat -> (m + k + 1 < n_l)%nat ->
+    lpow (y i) m * peval (leg_Dm m (leg_q sq m (m + k)%nat)) (x i)
+    = d1_wm (lit (m + k)%nat) (leg_eps sq m (m + k)%nat)
+        * (match k with O => 0 | S k' => legendre_evaluate sq nx x y n_m n_l m i (m + k')%nat end)
+      + d1_wp (lit (m + k)%nat) (leg_eps sq m (m + k + 1)%nat) * legendre_evaluate sq nx x y n_m n_l m i (m + k + 1)%nat.
+  Proof.
+    intros Hsq Hb1 Hrec Hden Hml Hi Hm Hk.
+    assert (Hev : forall j, (m + j < n_l)%nat ->
+              legendre_evaluate sq nx x y n_m n_l m i (m + j)%nat = lpow (y i) m * peval (fst (leg_qs sq m j)) (x i)).
+    { intros j Hj. rewrite legendre_evaluate_poly by assumption.
+      destruct (Nat.ltb_spec m n_m); [|lia]. destruct (Nat.leb_spec m (m + j)%nat); [|lia].
+      destruct (Nat.ltb_spec (m + j)%nat n_l); [|lia]. cbn [andb]. now rewrite leg_q_mk. }
+    rewrite leg_q_mk, (leg_q_derivative_relation sq m Hsq Hb1 Hrec Hden (x i) k).
+    rewrite leg_eps_mk. replace (m + k + 1)%nat with (m + S k)%nat by lia. rewrite leg_eps_mk, (Hev (S k)) by lia.
+    destruct k as [|k']; [ring|]. rewrite (Hev k') by lia. ring.
+  Qed.
+End LegendreDerivativeTable.
